@@ -1127,10 +1127,11 @@ def observe_manager(case, setup):
 
     names = {id(al): nm for nm, al in setup.manager.molecule_correspondence.items()}
     args = [_materialise(k, case[k]) for k in ("R", "D", "H")]
+    kw = {"parse_restrictions": False} if case.get("parse") is False else {}
     exc = None
     with _class_attr(A.Alignment, "align_molecules", recorder):
         try:
-            setup.manager.align_molecules(*args)
+            setup.manager.align_molecules(*args, **kw)
         except Exception as e:
             exc = e
     return {"calls": calls, "exc": exc}
@@ -1184,6 +1185,11 @@ def judge_manager(case, o, wrong=None):
             dup = name
         got[name] = (_norm_restr(r), _norm_def(dd), h)
     want = {sp: (_norm_restr(v[0]), _norm_def(v[1]), v[2]) for sp, v in exp[1].items()}
+    if case.get("parse") is False:
+        # restraints handed over already parsed (public parameter parse_restrictions=False), possibly for some species only and in any key
+        # order: the species named must each be aligned once with their own options; whether the others are aligned too is not demanded
+        named = list(case["R"])
+        want = {sp: v for sp, v in want.items() if sp in named or sp in got}
     okh = all(isinstance(v[2], bool) for v in got.values())
     cl[k_route] = None if (got == want and dup is None and okh) else (
         f"alignments received {got}{' (species ' + str(dup) + ' aligned twice)' if dup else ''}, expected {want}")
@@ -1211,6 +1217,36 @@ def task_manager(prop, part, nparts, tier, seed):
                         case = {"fn": "b10:manager", "R": R, "D": D, "H": H}
                         cl = judge_manager(case, observe_manager(case, setup))
                         agg.add(cl, case, _mgr_nontrivial(case))
+    finally:
+        setup.close()
+    return agg.obligations()
+
+
+def task_manager_preparsed(prop, seed):
+    """Manager.align_molecules(restrictions, deformations, hydrogens, parse_restrictions=False): restraints already parsed, given for
+    both species in either key order or for one species only; every well-formed deformation / hydrogen dictionary."""
+    try:
+        setup = MgrSetup()
+    except Harness as e:
+        return [ob(f"{prop}/Manager.align_molecules/harness/preparsed", "undecided", reason=str(e), **KW)]
+    agg = Agg(prop, "Manager.align_molecules", "restraints-already-parsed,key-orders-and-subsets")
+    good = lambda kind, sp: [k for k in KIND_VALUES[kind][sp] if not k.startswith(("bad_", "lenient_"))]
+    try:
+        Rs = []
+        for order in (("A", "B"), ("B", "A"), ("A",), ("B",)):
+            for combo in itertools.product(*[[st for st in good("R", sp) if st != "none"] + ["none"] for sp in order]):
+                Rs.append(dict(zip(order, combo)))
+        Ds = [None] + [dict(zip(order, combo)) for order in (("A", "B"), ("B", "A"), ("A",), ("B",))
+                       for combo in itertools.product(*[good("D", sp) for sp in order])]
+        Hs = [None] + [dict(zip(order, combo)) for order in (("A", "B"), ("B", "A"), ("A",), ("B",))
+                       for combo in itertools.product(*[good("H", sp) for sp in order])]
+        with contextlib.redirect_stdout(io.StringIO()):
+            for R in Rs:
+                for D in Ds:
+                    for H in Hs:
+                        case = {"fn": "b10:manager", "R": R, "D": D, "H": H, "parse": False}
+                        cl = judge_manager(case, observe_manager(case, setup))
+                        agg.add(cl, case, True)
     finally:
         setup.close()
     return agg.obligations()
@@ -1288,6 +1324,7 @@ def bounded_tasks(prop, tier, seed):
     nparts = 12
     for part in range(nparts):
         t.append((f"b10/manager/part{part + 1}of{nparts}", task_manager, (prop, part, nparts, tier, seed), 900.0))
+    t.append(("b10/manager/preparsed", task_manager_preparsed, (prop, seed), 600.0))
     t.append(("b10/manager/guards", task_manager_guards, (prop, seed), 300.0))
     return t
 
